@@ -299,15 +299,27 @@ func (e *Engine) execDefer(st *State, fr *Frame, x *ssa.Defer) {
 	e.advance(st, fr)
 }
 
-// runDeferred starts one deferred call of frame fr; control comes back to the
-// same RunDefers instruction (or to the unwinder).
-func (e *Engine) runDeferred(st *State, fr *Frame, d DeferRec) {
+// runDeferred starts the LAST deferred call of frame fr; control comes back to the
+// same RunDefers instruction (or to the unwinder). The record is removed only once
+// the call has completed or its frame has been pushed, so that a context switch or
+// fork inside a deferred intrinsic (e.g. mutex / WaitGroup operations) re-executes it.
+func (e *Engine) runDeferred(st *State, fr *Frame, _ DeferRec) {
+	d := fr.Defers[len(fr.Defers)-1]
+	pop := func() {
+		fr.Defers = fr.Defers[:len(fr.Defers)-1]
+		fr.Yielded = false
+		fr.HookDone = false
+		st.decisions = st.decisions[:0]
+		st.decPos = 0
+	}
 	if d.Go != nil {
 		d.Go(e, st)
+		pop()
 		return
 	}
 	a := d.Fn.Alts[0]
 	if a.Thunk != nil {
+		pop()
 		ta := a.Thunk.Fn.Alts[0]
 		nf := e.pushFrame(st, ta.Fn, a.Thunk.Args, ta.Binds)
 		nf.IsDefer = true
@@ -315,11 +327,15 @@ func (e *Engine) runDeferred(st *State, fr *Frame, d DeferRec) {
 	}
 	before := len(st.thread().Frames)
 	_, done := e.invoke(st, fr, a.Fn, d.Args, a.Binds, nil, false)
-	if !done {
-		if len(st.thread().Frames) > before {
-			st.frame().IsDefer = true
-		}
+	if done {
+		pop()
+		return
 	}
+	if len(st.thread().Frames) > before {
+		st.frame().IsDefer = true
+		pop()
+	}
+	// otherwise the intrinsic blocked: the record stays and is retried
 }
 
 func (e *Engine) execGo(st *State, fr *Frame, x *ssa.Go) {
